@@ -45,7 +45,7 @@ def write_mc_cfg(path, wal, mutant):
 def model_check(ctx, d):
     r = lib.tlc(ctx, d, "TxnAtomic", "MC_TxnAtomic.cfg", workers=4, timeout=600)
     lib.require_coverage(r, ["PStart", "PBegin", "PStmt", "PFault", "PCommit", "PErr", "PRetOk",
-                             "PRetErr", "PRBegin", "PRRead", "PREnd", "Crash"])
+                             "PRetErr", "PRBegin", "PRRead", "PREnd", "Crash", "Recover"])
     lib.account_tlc(ctx, r)
     write_mc_cfg(os.path.join(d, "MC_rollback.cfg"), False, "none")
     r = lib.tlc(ctx, d, "TxnAtomic", "MC_rollback.cfg", workers=4, timeout=600)
@@ -263,7 +263,8 @@ def run(ctx):
             ctx.add_sample(s, cap=4)
     validate_all(ctx, d, traces, ctx.seed)
     ops = sorted({"%s/%s" % (g["state"], g["op"]) for g in groups})
-    if tot["faults_with_pending_rows"] < 200 or tot["executions"] < 1000 or len(ops) < 8:
+    if tot["faults_with_pending_rows"] < 200 or tot["executions"] < 1000 or len(ops) < 8 or \
+            tot["reader_interleavings"] < 20 or tot["crash_images"] < 100:
         raise lib.ToolError("vacuity: too few fault injections took place: %s" % tot)
     ctx.extra["driver_stats"] = tot
     ctx.extra["groups"] = sorted(groups, key=lambda g: (g["state"], g["op"]))
